@@ -1777,3 +1777,9 @@ M("C15-typedef-array-not-peeled", "C15", "src/interrogate/interfaceMakerPythonNa
   "        // The array or pointer may be named through a typedef\n        // (is_pointer_to_simple() looks through those, too).\n        while (unwrap->get_subtype() == CPPDeclaration::ST_typedef) {\n          unwrap = unwrap->as_typedef_type()->_type;\n        }\n",
   "",
   expect="R15.22|write_function_instance|unwrap.as_array_type()")
+
+# ---------------------------------------------------------------- R15.1 premise of the hash_function_signature exemption (F-C15s)
+M("C15-duplicate-signature-reaches-abort", "C15", "src/interrogate/interfaceMaker.cxx",
+  "      if (hi != _wrappers_by_hash.end() && (*hi).second != nullptr &&\n          (*hi).second->_function_signature == remap->_function_signature) {\n        delete remap;\n        return nullptr;\n      }\n",
+  "",
+  expect="R15.1|InterfaceMaker::make_function_remap|hash_function_signature|same-signature-excluded-before-call")
